@@ -22,6 +22,7 @@ RULE = (
     "run_stat with/without --cigar; oracle = exact recomputation, second permutation must give the same report. "
     "Non-trivial = file has a secondary-by-tag record, a secondary-by-MAPQ record and a read with >=2 primary records; "
     "distinct by SHA-1 of the case."
+    " Later additions: UUID read names and names differing only in case, soft/hard clips, N and P operations."
 )
 ASSUMPTIONS = [
     "printed averages are compared with the exact rational within 5.1e-4 (3 printed decimals); between permutations within 1.1e-3",
